@@ -74,7 +74,12 @@ func (this *DataMatrixWriter) Encode(contents string, format gozxing.BarcodeForm
 	placement.Place()
 
 	//4. step: low-level encoding
-	return encodeLowLevel(placement, symbolInfo, width, height), nil
+	bits := encodeLowLevel(placement, symbolInfo, width, height)
+	if bits == nil {
+		return nil, gozxing.NewWriterException(
+			"IllegalArgumentException: Requested dimensions are too large: %dx%d", width, height)
+	}
+	return bits, nil
 }
 
 // encodeLowLevel Encode the given symbol info to a bit matrix.
@@ -162,14 +167,18 @@ func convertByteMatrixToBitMatrix(matrix *qrencoder.ByteMatrix, reqWidth, reqHei
 	topPadding := (outputHeight - (matrixHeight * multiple)) / 2
 
 	var output *gozxing.BitMatrix
+	var e error
 
 	// remove padding if requested width and height are too small
 	if reqHeight < matrixHeight || reqWidth < matrixWidth {
 		leftPadding = 0
 		topPadding = 0
-		output, _ = gozxing.NewBitMatrix(matrixWidth, matrixHeight)
+		output, e = gozxing.NewBitMatrix(matrixWidth, matrixHeight)
 	} else {
-		output, _ = gozxing.NewBitMatrix(reqWidth, reqHeight)
+		output, e = gozxing.NewBitMatrix(reqWidth, reqHeight)
+	}
+	if e != nil {
+		return nil // the requested image cannot be allocated
 	}
 
 	output.Clear()
